@@ -22,8 +22,8 @@ CASE_TIMEOUT = 900
 REACH_N = 40
 DET_K = 3
 SELFTEST = {'quick': 12, 'thorough': 96}
-REQUIRED_PROBES = ['kind_roundtrip', 'kind_restart', 'kind_params', 'kind_driver', 'resumed_from_checkpoint', 'budget_stopped_early', 'leg1_aborted', 'first_restart_iteration_is_save_step', 'restart_on_different_grid', 'time_7plus_digits', 'save_interval_1', 'explicit_rp', 'driver_without_folder_argument']
-RULE = ('case kinds (swarm-weighted): roundtrip = a Grid on random orderings/shape/dtype written with '
+REQUIRED_PROBES = ['kind_roundtrip', 'kind_restart', 'kind_params', 'kind_driver', 'resumed_from_checkpoint', 'budget_stopped_early', 'leg1_aborted', 'first_restart_iteration_is_save_step', 'restart_on_different_grid', 'time_7plus_digits', 'save_interval_1', 'explicit_rp', 'driver_without_folder_argument', 'kind_twojobs']
+RULE = ('case kinds (swarm-weighted): twojobs = the world split into two jobs that set up, call setupSave without a folder name in the same working directory at the same time, write a checkpoint and restart from their folder (a job refused loudly because it lost the race for a name is skipped; otherwise each must find its own parameters and field); roundtrip = a Grid on random orderings/shape/dtype written with '
         'writeH5Dataset on process grid P1 (several times, layouts and name conventions) and loaded with '
         'loadFromFile on a different process grid P2, file content checked with serial h5py; restart = '
         'setupCylindricalGrid + setupSave + checkpoints at integer times of different digit counts '
@@ -49,6 +49,8 @@ def gen(rng, tier, idx):
         return gen_restart(rng)
     if r < 0.70:
         return gen_params(rng)
+    if r < 0.76:
+        return gen_twojobs(rng)
     return gen_driver(rng, tier)
 
 
@@ -646,8 +648,91 @@ def run_driver(case, tape):
         return M.finish(oracle=oracle if 'final' in info else None)
 
 
+# ---------------------------------------------------------------------------
+# (e) two jobs started in the same directory at the same time
+# ---------------------------------------------------------------------------
+def gen_twojobs(rng):
+    jobs = []
+    for tag in 'ab':
+        ckw = phys.gen_constants(rng, amplified=False)
+        ckw['eps'] = rng.choice([1e-6, 1e-3, 1e-2])
+        g = rng.choice(phys.admissible_grids(ckw['npts'], 4))
+        jobs.append(dict(ckw=ckw, grid=g, t=rng.choice(TIMES), layout=rng.choice(['flux_surface', 'v_parallel', 'poloidal']),
+                         root=0, named=rng.random() < 0.2))
+    sched = simworld.random_sched(rng, 0)
+    sched['stall_p'] = rng.choice([0.0, 0.1, 0.3])
+    Pa, Pb = [j['grid'][0] * j['grid'][1] for j in jobs]
+    colors = [0] * Pa + [1] * Pb
+    if rng.random() < 0.5:
+        rng.shuffle(colors)
+    return dict(kind='twojobs', P=Pa + Pb, jobs=jobs, colors=colors, sched=sched)
+
+
+def run_twojobs(case, tape):
+    """Each half of a split world is a job of its own: it sets up, asks setupSave for a folder of its own
+    choice in the common working directory, writes a checkpoint and restarts from its folder.  Either a job
+    is refused loudly (it lost the race for a folder name) or it finds its own constants and its own field."""
+    from harness import SkipWorld
+    M = Multi(ID, tape)
+    P = case['P']
+    jobs = case['jobs']
+    colors = case['colors']
+    with Scratch() as base:
+        cwd = os.getcwd()
+        os.chdir(base)
+
+        def rank_fn(comm, rank):
+            from pygyro.utilities.savingTools import setupSave
+            from pygyro.initialisation.setups import setupFromFile
+            col = colors[rank]
+            job = jobs[col]
+            sub = comm.Split(col, rank)
+            Pj = job['grid'][0] * job['grid'][1]
+            f, constants = phys.setup_f(sub, job['ckw'], job['layout'])
+            lay = f.getLayout(job['layout'])
+            f.getAllData()[:] *= (1.0 + 0.1 * cm.local(phys.smooth_noise(job['ckw']['npts'], 77 + col, amp=1.0), lay))
+            try:
+                folder = setupSave(constants, ('job_%d' % col) if job['named'] else None, sub, job['root'])
+            except FileExistsError as e:
+                raise SkipWorld('a job lost the race for its folder and was refused: %s' % e)
+            sub.Barrier()
+            f.writeH5Dataset(folder, job['t'])
+            sub.Barrier()
+            mine = np.array(f.getAllData(), copy=True)
+            g, c2, t2 = setupFromFile(folder, comm=sub)
+            if int(t2) != int(job['t']):
+                raise OracleFail('restart-time', dict(job=col, got=int(t2), want=int(job['t']), folder=os.path.basename(str(folder))))
+            from refs import reference as ref
+            a, b = ref.constants_dict(constants), ref.constants_dict(c2)
+            bad = sorted(k for k in a if repr(a[k]) != repr(b.get(k)))
+            if bad:
+                raise OracleFail('params-differ', dict(job=col, fields=bad[:6], folder=os.path.basename(str(folder)),
+                                                       why='the restart found another job\'s parameters'))
+            if g.currentLayout != job['layout'] or not cm.bits_equal(g.getAllData(), mine):
+                raise OracleFail('restart-differs', dict(job=col, rank=rank, folder=os.path.basename(str(folder)),
+                                                         why='the restart found another field than the one this job saved'))
+            return dict(job=col, folder=os.path.basename(os.path.normpath(str(folder))))
+
+        def post(w, results):
+            fa = {r['folder'] for r in results if r['job'] == 0}
+            fb = {r['folder'] for r in results if r['job'] == 1}
+            if len(fa) != 1 or len(fb) != 1:
+                raise OracleFail('setupSave-disagree', dict(a=sorted(fa), b=sorted(fb)))
+            if fa == fb:
+                raise OracleFail('folder-shared', dict(folder=sorted(fa), why='two jobs were given the same folder'))
+            return dict(probes={'kind_twojobs': 1})
+        try:
+            with phys.force_procs({}):
+                M.run(P, case['sched'], rank_fn, post)
+        finally:
+            os.chdir(cwd)
+    return M.finish(extra=dict(nontrivial=True, probes={}))
+
+
 def run(case, tape=None):
     k = case['kind']
+    if k == 'twojobs':
+        return run_twojobs(case, tape)
     if k == 'roundtrip':
         return run_roundtrip(case, tape)
     if k == 'restart':
